@@ -49,5 +49,9 @@ static inline int same_f32(f32 a, f32 b) { return f32_bits(a) == f32_bits(b) || 
 static inline int same_f64(f64 a, f64 b) { return f64_bits(a) == f64_bits(b) || (a != a && b != b); }
 static inline int fin_f32(f32 a) { return (f32_bits(a) & 0x7f800000u) != 0x7f800000u; }
 static inline int fin_f64(f64 a) { return (f64_bits(a) & 0x7ff0000000000000ull) != 0x7ff0000000000000ull; }
+#ifdef __CPROVER__
+int __verif_exc; uint64_t __verif_exc_buf[32];   /* exception model state of the generated C (0 = none) */
+#else
 extern int __verif_exc;
+#endif
 #endif
